@@ -221,7 +221,7 @@ func rulesScanErr(c *Ctx, r *Report, pkgs []string) {
 			r.check(!bad, "SC1", fname(f), "Scan", c.pos(call.Pos()), "when Scan returns false, Err() of the same scanner is consulted before every exit", "a path from `Scan() == false` reaches a return without consulting Err(): a read failure is mistaken for the end of the data")
 		})
 	}
-	r.floor("SC1", n, 4, "Scan call sites in fastq")
+	r.floor("SC1", n, 1, "Scan call sites in fastq (4 today; one if wrapped in a helper)")
 }
 
 // rulesStreamErrorLast: YD2 for fasta/fastq/bed/newick, YD3 for sam (stream-error provenance).
